@@ -435,6 +435,11 @@ static void history(uint64_t c, const char *fam) {
                     }
                     STEP("resize");
                     unsigned n = r.chance(1, 4) ? 0 : unsigned(m[x].live()) + r.below(6);
+                    if (r.chance(1, 4) && m[x].live() > 1) {
+                        // shrink: the entries beyond the new size are dropped, the first n stay (no removed entries here)
+                        n = 1 + r.below(unsigned(m[x].live()) - 1);
+                        m[x].e.resize(n);
+                    }
                     if (n == 0) m[x].e.clear();
                     t[x].Resize(SizeT(n));
                     break;
